@@ -32,11 +32,25 @@ func RawDescs(files []*ast.File, info *types.Info) (map[string]*descriptorpb.Fil
 					if !strings.HasPrefix(n.Name, "file_") || !strings.HasSuffix(n.Name, "_rawDesc") || i >= len(vs.Values) {
 						continue
 					}
+					var b []byte
 					cl, ok := vs.Values[i].(*ast.CompositeLit)
 					if !ok {
-						return nil, nil, fmt.Errorf("%s is not a composite literal", n.Name)
+						// []byte("…" + "…"): a constant string converted to bytes
+						if call, isCall := ast.Unparen(vs.Values[i]).(*ast.CallExpr); isCall && len(call.Args) == 1 {
+							if tv, has := info.Types[call.Fun]; has && tv.IsType() && tv.Type.String() == "[]byte" {
+								if av, has := info.Types[call.Args[0]]; has && av.Value != nil && av.Value.Kind() == constant.String {
+									b = []byte(constant.StringVal(av.Value))
+									ok = true
+								}
+							}
+						}
+						if !ok {
+							return nil, nil, fmt.Errorf("%s is neither a byte list nor a constant string converted to []byte", n.Name)
+						}
+						cl = &ast.CompositeLit{}
+					} else {
+						b = make([]byte, 0, len(cl.Elts))
 					}
-					b := make([]byte, 0, len(cl.Elts))
 					for _, e := range cl.Elts {
 						tv, ok := info.Types[e]
 						if !ok || tv.Value == nil {
